@@ -66,7 +66,7 @@ type Conn struct {
 // NodeSpec describes one node (leaf, batch or flow).
 type NodeSpec struct {
 	ID   int    `json:"id"`
-	Kind string `json:"kind"` // base plain retry fb retryfb func batch flow zst (pointer to a zero-size type)
+	Kind string `json:"kind"` // base plain retry fb retryfb func batch flow zst (pointer to a zero-size type) ovr (embeds BaseNode, overrides the retry getters)
 
 	// func / batch: how each phase function is given: R (Result style), A (Any
 	// style), - (not set). Three characters: prep, exec, post.
